@@ -10,7 +10,11 @@ use sip_types::header::typed::CSeq;
 use sip_types::header::HeaderError;
 use sip_types::msg::RequestLine;
 use sip_types::{CodeKind, Headers, Method, Name};
-use std::time::{Duration, Instant};
+use std::time::Duration;
+#[cfg(not(feature = "ezk-verif"))]
+use std::time::Instant;
+#[cfg(feature = "ezk-verif")]
+use tokio::time::Instant;
 use tokio::time::{timeout, timeout_at};
 
 /// Client INVITE transaction. Used to receives responses to a INVITE request.
